@@ -243,6 +243,7 @@ def run_sequence(iface, kind, chunks, seq, disc_at=None):
 
         areq = make_req(kind, chunks)
         env = SV.to_environ(areq)
+        inp = env["wsgi.input"]  # (kept here: the code under test may put another object into the environ)
         req = Request(env)
         ref = Ref(kind)
         keep = []
@@ -265,7 +266,6 @@ def run_sequence(iface, kind, chunks, seq, disc_at=None):
                     problems.append((i, op, "repeated access returned a different object", None))
                     break
                 cached[op] = obj
-        inp = env["wsgi.input"]
         if bytes(inp.delivered) != KINDS[kind][0][:len(inp.delivered)]:
             problems.append((len(seq), "input", "chunks handed out of order", None))
         return problems, ref.key() + (len(inp.delivered),), results
